@@ -280,7 +280,7 @@ pub fn c17(args: &Args) -> i32 {
 // ---------------------------------------------------------------------------
 // C16 (sequential leg)
 
-const C16_OPS: [&str; 12] = [
+pub const C16_OPS: [&str; 12] = [
     "+p(X) <- e(X)",
     "+p(X) <- f(X)",
     "+g(X) <- e(X), f(X)",
